@@ -54,7 +54,7 @@ func runHistory(hist []int, mode int, prefix []int) *histExec {
 	h := &histExec{outcomes: make([]runOutcome, len(hist))}
 	taskMark := make([]int, len(hist)+1)
 	eventMark := make([]int, len(hist)+1)
-	vfuel.Reset(explore.FuelLimit * 4)
+	vfuel.Reset(explore.FuelLimit)
 	h.res = vsched.Run(prefix, vsched.Options{FreezeAfterQuiesce: true}, func() {
 		for i, k := range hist {
 			taskMark[i] = vsched.NumTasks()
@@ -201,7 +201,7 @@ const c19Chunk = 20
 func init() {
 	harness.Register(&harness.Check{
 		ID: "C19", Level: "model_checking",
-		Rule: "breadth-first over histories: all sequences of length <= 3 over an alphabet of 13 programs chosen to leave residue (unparseable, illegal character, two rejected programs, silent, printing with goroutines left blocked after cancellation, exec counter, multi-name provider, two programs reusing type/function/process names with different meanings, a drop cascade, two programs reusing type names with equal / unequal definitions), in async and sync polarized mode, each history executed inside ONE scheduler instance so that tasks left over from earlier runs stay schedulable during later ones, over all schedules with delay <= 1 (delay <= 2 for length <= 2 in the thorough tier); thorough also all histories of length 4 under the default schedule; differential oracle: verdict, printed multiset and panics of the i-th run equal those of the same program run alone in a FRESH process; no task of an earlier run prints during a later run; states/transitions as in C01",
+		Rule: "breadth-first over histories: all sequences of length <= 3 over an alphabet of 13 programs chosen to leave residue (unparseable, illegal character, two rejected programs, silent, printing with goroutines left blocked after cancellation, exec counter, multi-name provider, two programs reusing type/function/process names with different meanings, a drop cascade, two programs reusing type names with equal / unequal definitions), in async and sync polarized mode, each history executed inside ONE scheduler instance so that tasks left over from earlier runs stay schedulable during later ones, over all schedules with delay <= 1 (delay <= 2 for length <= 2 in the thorough tier); thorough also all histories of length 4 under the default schedule; differential oracle: verdict, printed multiset and panics of the i-th run equal those of the same program run alone in a FRESH process; no task panics at all (a panic kills the host and every later run); no task of an earlier run prints during a later run; a worker process executes many histories one after another, so state leaking between histories is detected as well; states/transitions as in C01",
 		Assumptions: append([]string{"prints and panics are attributed to runs by the epoch in which their task was created"}, mcAssumptions...),
 		Cases:       func(c *harness.Ctx) int { return (len(c19Cases(c)) + c19Chunk - 1) / c19Chunk },
 		Run: func(c *harness.Ctx, idx int, r *harness.Rec) {
@@ -278,6 +278,12 @@ func c19one(c *harness.Ctx, cs c19Case, r *harness.Rec) {
 		}
 		for _, l := range h.late {
 			report("leftover activity of an earlier run prints during a later run", l)
+		}
+		for i := range cs.hist {
+			for _, pn := range h.outcomes[i].Panics {
+				// a panic in any task kills the host process and with it every later run
+				report("a task started by run of program "+fmt.Sprint(cs.hist[i])+" panics: "+pn, fmt.Sprintf("task of run %d (program %d) panics: %s", i, cs.hist[i], pn))
+			}
 		}
 		pts := h.res.Points
 		cost := used
